@@ -717,6 +717,7 @@ class LazyStackedTensorDict(TensorDictBase):
                         out.append(idx)
                         split_dim = self.stack_dim - num_single
                         mask_loc = i
+                        mask_dim = cursor
                     else:
                         is_nd_tensor = True
                         if not encountered_tensor:
@@ -753,9 +754,10 @@ class LazyStackedTensorDict(TensorDictBase):
                             # split mask along dim
                             # relative_stack_dim = self.stack_dim - cursor - cursor_incr
                             individual_masks = idx = idx.unbind(0)
-                            selected_td_idx = range(self.shape[i])
+                            selected_td_idx = range(self.shape[cursor])
                             split_dim = cursor - num_single
                             mask_loc = i
+                            mask_dim = cursor
                     elif cursor < self.stack_dim:
                         # we know idx is not a single integer, so it must have
                         # a dimension. We play with num_single, reducing it
@@ -787,6 +789,7 @@ class LazyStackedTensorDict(TensorDictBase):
                 "individual_masks": individual_masks,
                 "split_dim": split_dim,
                 "mask_loc": mask_loc,
+                "mask_dim": mask_dim,
                 "is_nd_tensor": is_nd_tensor,
                 "num_none": num_none,
                 "num_squash": num_squash,
@@ -929,7 +932,7 @@ class LazyStackedTensorDict(TensorDictBase):
                 for (i, _idx), _value in _zip_strict(
                     converted_idx.items(), value_unbind
                 ):
-                    self_idx = (slice(None),) * split_index["mask_loc"] + (i,)
+                    self_idx = (slice(None),) * split_index["mask_dim"] + (i,)
                     self[self_idx]._set_at_str(
                         key,
                         _value,
@@ -2322,7 +2325,7 @@ class LazyStackedTensorDict(TensorDictBase):
                     for (i, _idx), _value in _zip_strict(
                         converted_idx.items(), value_unbind
                     ):
-                        self_idx = (slice(None),) * split_index["mask_loc"] + (i,)
+                        self_idx = (slice(None),) * split_index["mask_dim"] + (i,)
                         self[self_idx][_idx] = _value
         else:
             for key in self.keys():
@@ -2392,7 +2395,7 @@ class LazyStackedTensorDict(TensorDictBase):
                 )
             else:
                 for i, _idx in converted_idx.items():
-                    self_idx = (slice(None),) * split_index["mask_loc"] + (i,)
+                    self_idx = (slice(None),) * split_index["mask_dim"] + (i,)
                     result.append(self[self_idx][_idx])
                 return torch.cat(result, cat_dim)
         elif is_nd_tensor:
